@@ -26,6 +26,8 @@ def main():
     ap.add_argument("id"); ap.add_argument("i"); ap.add_argument("demo"); ap.add_argument("pkg"); ap.add_argument("run")
     ap.add_argument("--tags", default=""); ap.add_argument("--seeds", default="0 1"); ap.add_argument("--also", default="")
     ap.add_argument("--suite-retries", type=int, default=2)
+    ap.add_argument("--extra", default="", help="comma separated helper files the demo needs, copied next to it")
+    ap.add_argument("--tier", default="quick")
     a = ap.parse_args()
     src = "/tmp/seed/%s/out/%s" % (a.id, a.i)
     patch = os.path.join(src, "patch.diff")
@@ -56,6 +58,10 @@ def main():
         demo_name = demo_name.replace(".go", "_test.go")
     dst = os.path.join(SCR, a.pkg, demo_name)
     shutil.copy(os.path.join(src, a.demo), dst)
+    extras = [x for x in a.extra.split(",") if x]
+    for x in extras:
+        xn = os.path.basename(x).replace(".txt", "").lstrip("_")
+        shutil.copy(os.path.join(src, x), os.path.join(SCR, a.pkg, xn))
     tags = ("-tags %s " % a.tags) if a.tags else ""
     cmd = "go1.26.8 test %s-vet=off -count=1 -run '%s' ./%s/" % (tags, a.run, a.pkg)
     rc1, out1 = sh(cmd, cwd=SCR)
@@ -80,7 +86,7 @@ def main():
         for cid in [a.id] + [x for x in a.also.split(",") if x]:
             for s in a.seeds.split():
                 t0 = time.time()
-                rc, out = sh("VERIF_SEED=%s ./check %s --tier quick" % (s, cid), cwd="/verif", timeout=3600)
+                rc, out = sh("VERIF_SEED=%s ./check %s --tier %s" % (s, cid, a.tier), cwd="/verif", timeout=3600)
                 line = [l for l in out.splitlines() if l.startswith(("VIOLATION", "OK ", "INCONCLUSIVE"))]
                 runs.append({"check": cid, "seed": int(s), "exit": rc, "wall_s": round(time.time() - t0, 1), "line": (line[0] if line else out[-300:])})
                 print("  check %s seed %s -> exit %d (%s)" % (cid, s, rc, (line[0] if line else "")[:160]))
@@ -94,11 +100,13 @@ def main():
     os.makedirs(dstdir, exist_ok=True)
     shutil.copy(patch, os.path.join(dstdir, "patch.diff"))
     shutil.copy(os.path.join(src, a.demo), os.path.join(dstdir, demo_name + ".txt"))
+    for x in extras:
+        shutil.copy(os.path.join(src, x), os.path.join(dstdir, os.path.basename(x).replace(".txt", "").lstrip("_") + ".txt"))
     if os.path.exists(os.path.join(src, "notes.md")):
         shutil.copy(os.path.join(src, "notes.md"), os.path.join(dstdir, "notes.md"))
     meta = {
         "breaks_property": a.id,
-        "demonstration": {"file": demo_name + ".txt", "copy_to_package_dir": a.pkg, "as": demo_name, "command": cmd},
+        "demonstration": {"file": demo_name + ".txt", "copy_to_package_dir": a.pkg, "as": demo_name, "helpers": [os.path.basename(x).replace(".txt", "").lstrip("_") for x in extras], "command": cmd},
         "needs_to_manifest": "see notes.md",
         "confirmed": {k: res[k] for k in ("build_ok", "existing_suite_passes_with_change", "demo_fails_with_change", "demo_passes_without_change")},
         "what_was_run": res,
